@@ -281,11 +281,11 @@ structure Defects where
   defaultDropAccepted : Bool
 deriving Repr, DecidableEq
 
-/-- What /repo does and what the correspondence run validates. Both deviations were found by this check,
+/-- What /repo does and what the correspondence run validates. The three deviations were found by this check,
     confirmed on the real code (corpus/C15) and fixed in /repo (commits e35fd01 `hashOrderIds`,
-    fb21964 `partialRefusal`); the switches are kept so that the witnesses `C15_breaks_*` and the
-    regression replays keep describing what a revert of either fix would bring back. -/
-def Defects.asImplemented : Defects := { hashOrderIds := false, partialRefusal := false, defaultDropAccepted := true }
+    fb21964 `partialRefusal`, 9cb7f9f `defaultDropAccepted`); the switches are kept so that the witnesses
+    `C15_breaks_*` and the regression replays keep describing what a revert of a fix would bring back. -/
+def Defects.asImplemented : Defects := { hashOrderIds := false, partialRefusal := false, defaultDropAccepted := false }
 def Defects.none : Defects := { hashOrderIds := false, partialRefusal := false, defaultDropAccepted := false }
 /-- the code before the fixes -/
 def Defects.beforeFixes : Defects := { hashOrderIds := true, partialRefusal := true, defaultDropAccepted := true }
